@@ -252,9 +252,34 @@ class GoExec:
         if signed and w == 64 and self.int_overflow_checks and st is not None:
             self.oblige(st, '%s@%s' % (what, line), z3.And(v >= -(1 << 63), v < (1 << 63)), src=line)
             return v
+        if st is not None and self.fits(st, v, w, signed):
+            return v                  # no wrap-around on this path (decided from the quantifier-free path condition)
         if signed:
             return (v + (1 << (w - 1))) % (1 << w) - (1 << (w - 1))
         return v % (1 << w)
+
+    def fits(self, st, v, w, signed):
+        """does the path condition (its quantifier-free part) imply that v is representable in w bits?  Keeps wrap-around
+        terms out of obligations about indices and counters whose range the invariants already fix."""
+        if z3.is_int_value(z3.simplify(v)):
+            return False
+        lo, hi = (-(1 << (w - 1)), (1 << (w - 1)) - 1) if signed else (0, (1 << w) - 1)
+        try:
+            from .smt import _has_q
+            s = z3.Solver(); s.set('timeout', 150)
+            s.add([h for h in st.hyps() if not _has_q(h)])
+            s.add(z3.Or(v < lo, v > hi))
+            if s.check() == z3.unsat:
+                return True
+            from .smt import relevant_hyps
+            rh = relevant_hyps(st.hyps(), z3.Or(v < lo, v > hi))
+            if rh is None:
+                rh = st.hyps()
+            s = z3.Solver(); s.set('timeout', 300)
+            s.add(rh); s.add(z3.Or(v < lo, v > hi))
+            return s.check() == z3.unsat
+        except Exception:
+            return False
 
     def const_val(self, e):
         ck = e.get('ck')
@@ -407,6 +432,14 @@ class GoExec:
                         return z3.If((x / m) % 2 == 0, x + m, x)
                     if m == 0:
                         return x
+            for x, y in ((a, b), (b, a)):
+                ys = z3.simplify(y)
+                if z3.is_app(ys) and ys.decl().kind() == z3.Z3_OP_MOD and z3.is_int_value(ys.arg(1)):
+                    M = ys.arg(1).as_long()
+                    if M > 0 and (M & (M - 1)) == 0:
+                        # x | (y mod 2^k) where the low k bits of x are clear (side obligation): the bits are disjoint
+                        self.oblige(st, 'disjoint-or@%s' % line, x % M == 0, src=line)
+                        return x + y
             raise Unsupported('bitwise | of two variables in mode int @%s' % line)
         if op == '&':
             for x, y in ((a, b), (b, a)):
@@ -416,6 +449,13 @@ class GoExec:
                     if m >= 0 and (m & (m + 1)) == 0:
                         return x % (m + 1)
             raise Unsupported('bitwise & of two variables in mode int @%s' % line)
+        if op == '&^':
+            yc = z3.simplify(b)
+            if z3.is_int_value(yc):
+                m = yc.as_long()
+                if m >= 0 and (m & (m + 1)) == 0:       # clear the low bits: round down to a multiple of 2^k (two's complement)
+                    return a - a % (m + 1)
+            raise Unsupported('bitwise &^ in mode int @%s' % line)
         raise Unsupported('operator %s in mode int @%s' % (op, line))
 
     def abstract_product(self, st, a, b):
@@ -561,9 +601,26 @@ class GoExec:
             p = self.alloc(st, st.env[oid], x['obj']['t'])     # the variable now lives in the heap
             nb = dict(boxed); nb[oid] = p; st.meta['boxed'] = nb
             return p
+        if x['_'] == 'IndexExpr' and x['X'].get('t') is not None and self.tt.kind(x['X']['t']) == 'slice':
+            # &s[i], used to read the element without copying it: allowed in functions that never write through a
+            # pointer or into a slice, where the pointer can stand for a private copy of the element
+            if self.function_writes_heap():
+                raise Unsupported('address of a slice element in a function that writes the heap @%s' % x.get('line'))
+            v = self.ev(st, x)
+            return self.alloc(st, v, x['t'])
         if x['_'] == 'SelectorExpr' and x.get('sel', {}).get('kind') == 'field':
             raise Unsupported('address of a field @%s' % x.get('line'))
         raise Unsupported('address-of @%s' % x.get('line'))
+
+    def function_writes_heap(self):
+        fr = self.frame
+        if fr is None or getattr(fr, 'decl', None) is None:
+            return True
+        if '_wh' not in fr.__dict__:
+            vs, fs, calls = set(), set(), []
+            self.assigned_in(fr.decl.get('Body'), vs, fs, calls)
+            fr._wh = bool(fs) or any(c[0] == 'elemwrite' for c in calls)
+        return fr._wh
 
     def alloc(self, st, v, tid):
         ref = fresh('ref')
